@@ -87,6 +87,13 @@ def _generate_unquoted_parts(string, only_printable=False, unsafe=None):
     yield string[previous_match_end:]  # Non-ASCII tail
 
 
+C1_CONTROL_CHARS_RE = re.compile("[\x80-\x9f]")
+
+
+def _quote_match(match):
+    return quote(match.group(0))
+
+
 # NOTE: here, unsafe must be a container of bytes
 def unquote(string, only_printable=False, unsafe=None, normalize_space=False):
     if "%" not in string:
@@ -98,6 +105,11 @@ def unquote(string, only_printable=False, unsafe=None, normalize_space=False):
     q = "".join(
         _generate_unquoted_parts(string, only_printable=only_printable, unsafe=unsafe)
     )
+
+    # NOTE: C1 control characters are encoded on two bytes and can therefore
+    # only be spotted once the string has been decoded
+    if only_printable:
+        q = C1_CONTROL_CHARS_RE.sub(_quote_match, q)
 
     if normalize_space:
         q = q.replace(" ", "%20")
